@@ -131,6 +131,20 @@ def sameDirRetrace (vg : VG) : Bool := (Driver.C05.polysOf vg).any fun rings => 
   (pairsOf es).any fun (a, b) => segRel a.1 a.2 b.1 b.2 == SegRel.overlap &&
     decide ((a.2.x - a.1.x) * (b.2.x - b.1.x) + (a.2.y - a.1.y) * (b.2.y - b.1.y) > 0)
 
+/-- some polygon has a shell ring that crosses itself properly (so it is rebuilt from computed, rounded nodes) and a hole ring that meets
+that shell only in isolated points, with no proper crossing and no overlap: whether `classifyHoles` finds the hole to "intersect"
+the REPAIRED shell then depends on rounding (the mechanism of the recorded "touching hole becomes area" finding) -/
+def holeTouchesCrossingShell (vg : VG) : Bool := (Driver.C05.polysOf vg).any fun rings =>
+  match rings with
+  | sh :: holes =>
+    let se := (edges sh).filter fun e => e.1 != e.2
+    let shellSelfCross := (pairsOf se).any fun (a, b) => segRel a.1 a.2 b.1 b.2 == SegRel.point true
+    shellSelfCross && holes.any fun h =>
+      let he := (edges h).filter fun e => e.1 != e.2
+      let rels := he.flatMap fun a => se.map fun b => segRel a.1 a.2 b.1 b.2
+      rels.any (· == SegRel.point false) && !rels.any (· == SegRel.point true) && !rels.any (· == SegRel.overlap)
+  | [] => false
+
 def kvOf (l : List String) : List (String × String) := Driver.C05.kv l
 
 def hptStr (p : HPt) : String := s!"{p.x}/{p.w},{p.y}/{p.w}"
@@ -188,7 +202,7 @@ def check (line : String) : String :=
               if !isStruct || !inFinite then none else
               match areaMismatch 24 pi.polys po.polys with
               | none => none
-              | some x => some s!"bad area sample={hptStr x} expected={if expectedIn x (pi.polys.map prepPolygon) then 1 else 0} rsame={if sameDirRetrace vi then 1 else 0}",
+              | some x => some s!"bad area sample={hptStr x} expected={if expectedIn x (pi.polys.map prepPolygon) then 1 else 0} rsame={if sameDirRetrace vi then 1 else 0} htouch={if holeTouchesCrossingShell vi then 1 else 0}",
             fun _ =>
               -- "collapses are kept exactly when requested" inside collections (regression check of finding F5): where the
               -- model (`fix`) and the behaviour before the fix of fixCollection (`fixDropping`) part, the implementation must
